@@ -9,6 +9,8 @@ A *case* is {'single': bool, 'ops': [op, ...]}.  Operations (all JSON):
   ['write', name, data, idx]       VPK[name].write(data, idx)
   ['del', name]                    del VPK[name]
   ['flush']                        VPK.write_dirfile()
+  ['exit', exc]                    VPK.__exit__ at the end of a `with VPK(...) as v:` block (open also calls __enter__);
+                                   exc = True: an exception was raised inside the block
   ['has', name]                    name in VPK
   ['check']                        observe: triples, filenames, read of every file, verify_all, files on disk
   ['plant', hex]                   (harness only) put these raw bytes in place of the directory file; closes the handle
@@ -205,6 +207,7 @@ class ImplWorld:
             'reads': reads,
             'verify': ver,
             'len': len(v),
+            'spell': [[(nm in v) and (v[nm] is i) for nm in (py_name(spell(kd, *k)) for kd in 'spt')] for k, i in infos],
             'dirfile': None if d['dir'] is None else digest(d['dir']),
             'arch': [[k, digest(b)] for k, b in sorted(d['arch'].items())],
         }
@@ -220,7 +223,10 @@ class ImplWorld:
         if kind == 'open':
             self.vpk = None
             try:
-                self.vpk = VPK(self.path, mode=op[1], dir_data_limit=op[2])
+                v = VPK(self.path, mode=op[1], dir_data_limit=op[2])
+                self.vpk = v.__enter__()
+                if self.vpk is not v:
+                    return 'enter-not-self'
             except Exception as e:
                 return err_code(e)
             return 'ok'
@@ -245,6 +251,14 @@ class ImplWorld:
                 del v[py_name(op[1])]
             elif kind == 'flush':
                 v.write_dirfile()
+            elif kind == 'exit':
+                if op[1]:
+                    exc = RuntimeError('raised inside the with block')
+                    r = v.__exit__(RuntimeError, exc, None)
+                else:
+                    r = v.__exit__(None, None, None)
+                if r:
+                    return 'exit-swallows-exception'
             elif kind == 'has':
                 return 'yes' if py_name(op[1]) in v else 'no'
             else:
@@ -268,6 +282,17 @@ def get_parts(name):
     return _get_file_parts(py_name(name))
 
 
+def spellable(d, n, e):
+    """the three spellings of (d, n, e) must resolve to it (hypotheses of C13_names)"""
+    return ('/' not in n and '/' not in e and '.' not in e and not (e == '' and '.' in n) and not d.endswith('/')
+            and _is_clean(d))
+
+
+def _is_clean(d):
+    from srctools.vpk import _get_file_parts
+    return _get_file_parts((d, 'x', 'y'))[0] == d
+
+
 def is_ascii_name(s):
     return all(ord(c) < 0x80 or 0xDC80 <= ord(c) <= 0xDCFF for c in s)
 
@@ -279,6 +304,7 @@ class Spec:
         self.disk = None        # None = no file; 'blank' = empty file; dict = committed map
         self.cur = None         # None | dict
         self.mode = None
+        self.gone = set()       # every triple ever addressed (to check that absent ones are not found)
 
     def step(self, op, parts):
         """Returns the set of acceptable results ('ok'/codes) or None when anything goes."""
@@ -306,6 +332,8 @@ class Spec:
         if self.cur is None:
             return {'nohandle'}
         ro = self.mode == 'r'
+        if k in ('new', 'add', 'write', 'del', 'has'):
+            self.gone.add(parts(op[1]))
         if k in ('new', 'add'):
             if ro:
                 return {'readonly'}
@@ -339,6 +367,11 @@ class Spec:
             return {'ok'}
         if k == 'has':
             return {'yes' if parts(op[1]) in self.cur else 'no'}
+        if k == 'exit':
+            # leaving a with block saves the index when no exception was raised and the mode is writable
+            if not op[1] and not ro:
+                self.disk = dict(self.cur)
+            return {'ok'}
         raise AssertionError(op)
 
 
@@ -395,6 +428,26 @@ def run_case(case, oracle=True, capture=0, hist=None):
                     fails.append(('listing', f'filenames() = {sorted(st(x) for x in obs["filenames"])}', n))
                 if obs['len'] != len(exp):
                     fails.append(('listing', f'len() = {obs["len"]} with {len(exp)} files', n))
+                for t in exp:
+                    for kd in (('s', 'p', 't') if spellable(*t) else ('t',)):
+                        nm = py_name(spell(kd, *t))
+                        try:
+                            ok = (nm in w.vpk) and w.vpk[nm].read() == spec.cur[t]
+                        except Exception as e:
+                            ok = False
+                        if not ok:
+                            fails.append(('lookup', f'{nm!r} (a spelling of {t}) is not found by `in` / [] or reads other data', n))
+                for t in getattr(spec, 'gone', ()):
+                    if t not in spec.cur and spellable(*t):
+                        for kd in 'spt':
+                            nm = py_name(spell(kd, *t))
+                            found = nm in w.vpk
+                            try:
+                                w.vpk[nm]; found = True
+                            except KeyError:
+                                pass
+                            if found:
+                                fails.append(('lookup', f'{nm!r} is found although {t} should not exist', n))
                 if spec.mode == 'r':
                     if ro_disk is not None and ro_disk != (disk['dir'], disk['arch']):
                         fails.append(('readonly', 'files on disk changed while the archive was open read-only', n))
@@ -404,7 +457,7 @@ def run_case(case, oracle=True, capture=0, hist=None):
             obs_all.append(got)
             if op[0] == 'open':
                 ro_disk = None
-            if op[0] == 'flush' and got == 'ok' and len(dirs) < capture:
+            if op[0] in ('flush', 'exit') and got == 'ok' and len(dirs) < capture and os.path.exists(w.path):
                 with open(w.path, 'rb') as f:
                     dirs.append(f.read())
             if spec is None:
@@ -531,6 +584,12 @@ def gen_data(rng, big_ok=True):
     return ['g', rng.randrange(0, 1000), size]
 
 
+def _gen_save(rng):
+    """explicit write_dirfile(), or leaving the `with` block normally, or (rarely) with an exception"""
+    r = rng.random()
+    return ['flush'] if r < 0.5 else ['exit', False] if r < 0.92 else ['exit', True]
+
+
 def gen_case(rng, max_ops=25, collide_p=0.04):
     """A random history.  Returns the case; files are addressed through a small pool of triples so that
     overwrites, deletes and re-adds of the same file happen often."""
@@ -562,17 +621,17 @@ def gen_case(rng, max_ops=25, collide_p=0.04):
         elif r < 0.72:
             ops.append(['has', name])
         elif r < 0.80:
-            ops.append(['flush']); flushed = True
+            ops.append(_gen_save(rng)); flushed = flushed or ops[-1] != ['exit', True]
         elif r < 0.84:
             ops.append(['check'])
         else:
-            # reopen: usually flushed first (the property's history), sometimes not
+            # reopen: usually saved first (write_dirfile or leaving a with block), sometimes not
             if rng.random() < (0.85 if flushed else 0.97):
-                ops.append(['flush']); flushed = True
+                ops.append(_gen_save(rng)); flushed = flushed or ops[-1] != ['exit', True]
             mode = rng.choice('rraaw')
             ops.append(['open', mode, rng.choice(LIMITS)])
             ops.append(['check'])
-    ops.append(['flush'])
+    ops.append(rng.choice([['flush'], ['exit', False]]))
     ops.append(['open', 'r', rng.choice(LIMITS)])
     ops.append(['check'])
     return {'single': single, 'ops': ops}
